@@ -10,6 +10,30 @@ TRUSTED = [
 
 PLAN = {}
 
+HOOK_COMMITS = ['3186200']
+
+NOT_APPLICABLE = {
+ 'C02': 'pending: bounded JIT-vs-interpreter leg not built yet (emitted machine code is outside verifier reach; only a bounded stand-in is possible)',
+ 'C03': 'pending: Kani/Verus interval units not built yet',
+ 'C04': 'pending: simplify unit not built yet',
+ 'C05': 'pending: gradient units not built yet',
+ 'C06': 'the deciding functions (render_tile_recurse, render_tiles) are generic over Function, drive nalgebra and rayon, and their postcondition quantifies over an evaluator; neither verifier can take them, and contracts on the integer helpers alone do not carry the property',
+ 'C07': 'same code shape as C06 plus get_unchecked_mut scratch indexing; no contract within reach decides occlusion bookkeeping across a trait-generic recursion',
+ 'C08': 'a global combinatorial and geometric statement over all octrees (manifoldness of the dual walk, QEF in f32); per-cell tables are finite and checkable but do not imply it',
+ 'C09': 'a property of rayon schedules and a relaxed atomic; Kani has no threads, Verus would need the code rewritten onto its permission types',
+ 'C10': 'pending: reset/new contracts exist in the alloc unit; evaluator reuse leg not built yet',
+ 'C11': 'pending: totality units not built yet',
+ 'C12': 'every constructor goes through a HashMap-backed arena, IntoNode generics and float-literal match patterns; Verus rejects the constructs and Kani symbolic execution of the arena is out of budget',
+ 'C13': 'Context::import is an explicit-stack walker over Arc<TreeOp> with a pointer-keyed cache and nalgebra affine products; equality is only approximate in f32',
+ 'C14': 'VarMap is a HashMap with the entry API, eval_raw iterates a chained iterator and applies a nalgebra projective transform; only "simplify keeps vars" is within reach and is covered under C04',
+ 'C15': 'pending: bytecode leg not built yet',
+ 'C16': 'closed-form real geometry with trigonometry; the verifier has no real-analysis semantics for f32 libm calls',
+ 'C17': 'the semantics lives in the rhai interpreter (external, dynamically typed, reflection-driven)',
+ 'C18': 'pending: view harnesses not built yet',
+ 'C19': 'Levenberg-Marquardt over nalgebra DMatrix, SVD pseudo-inverse and HashMap bookkeeping; numeric convergence is not a contract Verus/Kani can discharge',
+ 'C20': 'pending: trace record legs not built yet',
+}
+
 
 def leg_verus(unit):
     return ('verus', unit)
@@ -25,7 +49,12 @@ def leg_bounded(contract):
 
 PLAN['C01'] = {
     'level': 'proof',
-    'legs': [leg_verus('alloc'), leg_bounded('rev_range'), leg_bounded('interp_point'), leg_bounded('interp_bulk'), leg_bounded('flatten'), leg_bounded('alloc_cex')],
+    'technique': 'contract-based deductive verification (Verus) of alloc.rs/lru.rs/reg_tape.rs on mechanically extracted real text; bounded native contract runner for interpreter loops and SsaTape::new',
+    'level_text': 'Unbounded proof (all programs, all N in 3..=255, all initial register contents) that register allocation preserves tape semantics, function by function against contracts; the interpreter loops and the graph flattening are outside verifier reach and are covered by labelled bounded stand-ins only.',
+    'level_note': 'Trusted: Verus+Z3, the extractor rewrite rules, assume_specification for mem::take and slice::fill, assume(slot_count < u32::MAX); bounded only: VM interpreter per-opcode contract, SsaTape::new contract, N in {1,2}.',
+    'legs': [leg_verus('alloc'), leg_bounded('rev_range'), leg_bounded('interp_point'), leg_bounded('interp_bulk'), leg_bounded('flatten'),
+             leg_bounded('alloc_cex'), leg_bounded('alloc_small_n')],
+    'cex': ['alloc_cex', 'flatten', 'interp_point'],
     'explanation': (
         'Top theorem proved by Verus on the real text of alloc.rs/lru.rs/reg_tape.rs (extracted mechanically each run): for every N in 3..=255, '
         'every well-formed SSA tape and every initial register/memory contents, RegTape::new::<N> yields a register tape whose outputs equal the SSA '
